@@ -189,7 +189,7 @@ pub fn strategy() -> BoxedStrategy<Case> {
                     }
                 }
             }
-            Case { base: c09::Case { prob, span, method, rtol, atol, analytic_jac, max_step, recipes }, t_eval, dense }
+            Case { base: c09::Case { prob, span, method, rtol, atol, analytic_jac, max_step, recipes, first_step: None }, t_eval, dense }
         })
         .boxed()
 }
